@@ -375,7 +375,7 @@ func dnsScenarioC08(w *dnsWorld) {
 		k := 1 + T.Pick(4, 2, 1)
 		var ops []*dnsOp
 		for i := 0; i < k; i++ {
-			op := &dnsOp{cli: i % nCli, idx: len(w.ops), id: uint16(100 + len(w.ops)), viaUDP: T.Chance(1, 4)}
+			op := &dnsOp{cli: i % nCli, idx: len(w.ops), id: uint16(100 + len(w.ops)), viaUDP: T.Chance(1, 4), resolver: T.Pick(3, 1)}
 			// revisit a cached key most of the time
 			if cur := w.sortedEntries(); len(cur) > 0 && T.Chance(3, 4) {
 				e := cur[T.Choose(len(cur))]
@@ -383,6 +383,9 @@ func dnsScenarioC08(w *dnsWorld) {
 					e = w.focus // every other round a second client asks the same question concurrently
 				}
 				op.name, op.qtype = e.key.name, e.key.qtype
+				if e.key.scope >= len(w.ups) && T.Chance(3, 4) {
+					op.resolver = e.key.scope - len(w.ups) // mostly under the scope it was cached for
+				}
 			} else {
 				op.name, op.qtype = w.names[T.Choose(len(w.names))], dnsQtypes[T.Pick(3, 2, 1)]
 			}
